@@ -1530,3 +1530,18 @@ CASES += [
     dict(name="nb-shift-by-one-ok", file=FF, rule="NB", props=["C13", "C08"], expect=None,
          old="""        a = (a + a) % P;""", new="""        a = (a << 1) % P;"""),
 ]
+
+CASES += [
+    dict(name="D11-from-string-zero-negative", file=CNF, rule="DP", props=["C15", "C17"], expect="from_string:sign",
+         old="""                let neg = parsed < 0;""", new="""                let neg = parsed <= 0;"""),
+    dict(name="dp-from-string-ge-ok", file=CNF, rule="DP", props=["C15"], expect=None,
+         old="""                let neg = parsed < 0;
+                c.push(Literal::new(
+                    VarLabel::new_usize(i64::abs(parsed) as usize),
+                    !neg,
+                ));""",
+         new="""                c.push(Literal::new(
+                    VarLabel::new_usize(parsed.unsigned_abs() as usize),
+                    parsed >= 0,
+                ));"""),
+]
